@@ -6,11 +6,14 @@ fetcher, internal/db/fetcher/wrapper.go).  Hence what has to be shown is (1) com
 range: every entry whose value satisfies the condition lies in the scanned interval — proved here for all
 eight operator × direction cases from the order-embedding theorems of C17 — and (2) that re-filtering a
 duplicate-free superset of the matching documents yields exactly the matching documents.
-Index maintenance (entries = entries of the live documents after any create/update/delete history) is tied by
-comparing the raw index keys of the real store byte for byte with the model's keys on every run; the planner's
-choice of conditions (e.g. nothing under `_or`) by the twin-database comparison.
+Index maintenance (entries = entries of the live documents after any create/update/delete history) is proved for
+the maintenance model (`Index/Maint.lean`: `indexNewDoc`, `updateDocIndex`, `deleteIndexedDoc`, `CreateIndex` on a
+populated collection) by `index_matches_documents_after_every_history`; `drv query` keeps its index entries with
+that model's `step`, and the raw index keys of the real store are compared byte for byte with them on every run;
+the planner's choice of conditions (e.g. nothing under `_or`) by the twin-database comparison.
 -/
 import DefraModel.Proofs.IndexRange
+import DefraModel.Proofs.IndexMaint
 namespace Defra.Props.C07
 open Defra Defra.Enc Defra.Bytes Defra.Index Defra.Props.C17
 
@@ -156,5 +159,36 @@ example : inRange (entryKey 1 2 true (.int 3) [0x2f, 6, 0x61, 0, 1]) (rangeBound
   decide
 example : inRange (entryKey 1 2 false (.int 4) [0x2f, 6, 0x61, 0, 1]) (rangeBounds 1 2 false .ge (.int 5)) = false := by
   decide
+
+/-- **Index maintenance, every history.** An index created at any moment on a collection (whose documents have
+    distinct identifiers) and then carried through any sequence of creates, updates and deletes holds exactly one
+    entry per live document, with that document's current values — no stale entry, none missing, none twice. -/
+theorem index_matches_documents_after_every_history {α κ : Type} [DecidableEq κ] (key : α → κ)
+    (docs : List (Nat × α)) (hn : (docs.map (·.1)).Nodup) (ops : List (IndexMaint.Op α)) :
+    let s := ops.foldl (IndexMaint.step key) (IndexMaint.build key docs)
+    (s.docs.map (·.1)).Nodup ∧ s.entries.Perm (s.docs.map (fun d => (key d.2, d.1))) :=
+  IndexMaint.run_inv key _ ops (IndexMaint.inv_build key docs hn)
+
+/-- consequence used by the query path: a document is reachable through the index under a value exactly when it is
+    live and currently holds that value -/
+theorem index_entry_iff_live_value {α κ : Type} [DecidableEq κ] (key : α → κ)
+    (docs : List (Nat × α)) (hn : (docs.map (·.1)).Nodup) (ops : List (IndexMaint.Op α)) (k : κ) (id : Nat) :
+    let s := ops.foldl (IndexMaint.step key) (IndexMaint.build key docs)
+    (k, id) ∈ s.entries ↔ ∃ a, (id, a) ∈ s.docs ∧ key a = k := by
+  intro s
+  have h := (index_matches_documents_after_every_history key docs hn ops).2
+  rw [h.mem_iff, List.mem_map]
+  constructor
+  · rintro ⟨d, hd, he⟩
+    obtain ⟨h1, h2⟩ := Prod.mk.inj he
+    exact ⟨d.2, by rw [← h2]; exact hd, h1⟩
+  · rintro ⟨a, ha, hk⟩
+    exact ⟨(id, a), ha, by simp [hk]⟩
+
+/-! non-vacuity: index built over two documents, then one updated, one deleted, one created -/
+example :
+    (([IndexMaint.Op.update 1 30, .delete 2, .create 3 7, .update 3 8] : List (IndexMaint.Op Nat)).foldl
+      (IndexMaint.step (fun a => a % 10)) (IndexMaint.build (fun a => a % 10) [(1, 11), (2, 22)])).entries
+      = [(0, 1), (8, 3)] := by decide
 
 end Defra.Props.C07
